@@ -34,13 +34,15 @@ Import ListNotations.
 Require Import RV.Model.C11Base.
 Open Scope Z_scope.
 
-Record fcycle := FCy { fc_mode : mode; fc_q : nat }.
+(* fc_fail: the environment makes flock() raise OSError (ENOLCK, EIO, ...) for this acquisition: the attempt fails *)
+Record fcycle := FCy { fc_mode : mode; fc_q : nat; fc_fail : bool }.
 
 Inductive fpc :=
 | F_Flock | F_Lock1 | F_Check | F_Upd | F_Unlock1
 | F_InCS | FQ_Read | FQ_Unlock
 | FR_Upd | FR_Unlock | FR_Close
 | F_RaiseUnlock | F_RaiseClose | F_Failed
+| F_FailClose     (* flock raised OSError -> RuntimeError: the `with open` block is left, the descriptor closed *)
 | F_Done.
 
 Inductive flval := FLNone | FLR | FLW | FLFree.
@@ -50,6 +52,7 @@ Record fthread := FTh {
   f_proc : nat;            (* the process this thread belongs to *)
   f_mode : mode;
   f_q : nat;
+  f_fail : bool;           (* flock of the current acquisition raises OSError *)
   f_todo : list fcycle;
   f_seen : flval
 }.
@@ -85,11 +88,11 @@ Definition flocked_val (ps : pstate) : flval :=
   if Z.ltb 0 (p_readers ps) then FLR else if p_writer ps then FLW else FLFree.
 
 Definition fset_pc (th : fthread) (p : fpc) : fthread :=
-  FTh p (f_proc th) (f_mode th) (f_q th) (f_todo th) (f_seen th).
+  FTh p (f_proc th) (f_mode th) (f_q th) (f_fail th) (f_todo th) (f_seen th).
 Definition fnext_cycle (th : fthread) : fthread :=
   match f_todo th with
-  | [] => FTh F_Done (f_proc th) (f_mode th) 0%nat [] (f_seen th)
-  | c :: r => FTh F_Flock (f_proc th) (fc_mode c) (fc_q c) r (f_seen th)
+  | [] => FTh F_Done (f_proc th) (f_mode th) 0%nat false [] (f_seen th)
+  | c :: r => FTh F_Flock (f_proc th) (fc_mode c) (fc_q c) (fc_fail c) r (f_seen th)
   end.
 Definition set_pmutex (ps : pstate) (o : option nat) : pstate := PS o (p_readers ps) (p_writer ps).
 
@@ -97,7 +100,9 @@ Definition ftstep (t : nat) (g : fgst) (th : fthread) : option (fgst * fthread) 
   let p := f_proc th in
   let ps := proc_of g p in
   match f_pc th with
-  | F_Flock => if kcompat (f_mode th) g then Some (kgrant (f_mode th) g, fset_pc th F_Lock1) else None
+  | F_Flock =>
+      if f_fail th then Some (g, fset_pc th F_FailClose)     (* OSError: no lock, no bookkeeping *)
+      else if kcompat (f_mode th) g then Some (kgrant (f_mode th) g, fset_pc th F_Lock1) else None
   | F_Lock1 =>
       match p_mutex ps with
       | None => Some (set_proc g p (set_pmutex ps (Some t)), fset_pc th F_Check)
@@ -116,7 +121,7 @@ Definition ftstep (t : nat) (g : fgst) (th : fthread) : option (fgst * fthread) 
                       fset_pc th (match f_q th with O => FR_Upd | S _ => FQ_Read end))
       | Some _ => None
       end
-  | FQ_Read => Some (g, FTh FQ_Unlock p (f_mode th) (Nat.pred (f_q th)) (f_todo th) (flocked_val ps))
+  | FQ_Read => Some (g, FTh FQ_Unlock p (f_mode th) (Nat.pred (f_q th)) (f_fail th) (f_todo th) (flocked_val ps))
   | FQ_Unlock => Some (set_proc g p (set_pmutex ps None), fset_pc th F_InCS)
   | FR_Upd =>
       Some (set_proc g p (PS (p_mutex ps) (match f_mode th with R => p_readers ps - 1 | W => p_readers ps end) false),
@@ -125,6 +130,7 @@ Definition ftstep (t : nat) (g : fgst) (th : fthread) : option (fgst * fthread) 
   | FR_Close => Some (kclose (f_mode th) g, fnext_cycle th)
   | F_RaiseUnlock => Some (set_proc g p (set_pmutex ps None), fset_pc th F_RaiseClose)
   | F_RaiseClose => Some (kclose (f_mode th) g, fset_pc th F_Failed)
+  | F_FailClose => Some (g, fnext_cycle th)                   (* the caller sees RuntimeError and goes on *)
   | F_Failed | F_Done => None
   end.
 
@@ -137,8 +143,8 @@ Definition fenabled : fstate -> nat -> bool := C11Base.enabled ftstep.
 (* a thread = (process number, program) *)
 Definition fstart (pp : nat * list fcycle) : fthread :=
   match snd pp with
-  | [] => FTh F_Done (fst pp) R 0%nat [] FLNone
-  | c :: r => FTh F_Flock (fst pp) (fc_mode c) (fc_q c) r FLNone
+  | [] => FTh F_Done (fst pp) R 0%nat false [] FLNone
+  | c :: r => FTh F_Flock (fst pp) (fc_mode c) (fc_q c) (fc_fail c) r FLNone
   end.
 
 Definition nprocs (progs : list (nat * list fcycle)) : nat := S (fold_right (fun pp a => Nat.max (fst pp) a) 0%nat progs).
@@ -153,7 +159,7 @@ Definition fowns_mutex (p : fpc) : bool :=
   match p with F_Check | F_Upd | F_Unlock1 | FQ_Read | FQ_Unlock | FR_Upd | FR_Unlock | F_RaiseUnlock => true | _ => false end.
 (* the descriptor of the current acquisition holds the flock lock *)
 Definition flock_pc (p : fpc) : bool :=
-  match p with F_Flock | F_Failed | F_Done => false | _ => true end.
+  match p with F_Flock | F_Failed | F_FailClose | F_Done => false | _ => true end.
 (* the RwLock object counts the thread as a holder *)
 Definition fholds_pc (p : fpc) : bool :=
   match p with F_Unlock1 | F_InCS | FQ_Read | FQ_Unlock | FR_Upd => true | _ => false end.
@@ -185,7 +191,7 @@ Definition fpc_code (p : fpc) : Z :=
   match p with
   | F_Flock => 1 | F_Lock1 => 2 | F_Check => 3 | F_Upd => 4 | F_Unlock1 => 5 | F_InCS => 6 | FQ_Read => 7
   | FQ_Unlock => 8 | FR_Upd => 9 | FR_Unlock => 10 | FR_Close => 11 | F_RaiseUnlock => 12 | F_RaiseClose => 13
-  | F_Failed => 14 | F_Done => 0
+  | F_Failed => 14 | F_FailClose => 15 | F_Done => 0
   end.
 Definition flval_code (v : flval) : Z := match v with FLNone => 0 | FLR => 1 | FLW => 2 | FLFree => 3 end.
 Definition fzb (b : bool) : Z := if b then 1 else 0.
@@ -209,7 +215,8 @@ Fixpoint ftrace (sched : list nat) (s : fstate) : list (list Z) :=
               end
   end.
 
-Definition fmk_cycle (x : Z) : fcycle := FCy (if Z.odd x then W else R) (Z.to_nat (x / 2)).
+(* harness encoding of a cycle: 4*q + 2*(flock fails) + (1 if write) *)
+Definition fmk_cycle (x : Z) : fcycle := FCy (if Z.odd x then W else R) (Z.to_nat (x / 4)) (Z.odd (x / 2)).
 Definition frun_case (c : list (nat * list Z) * list nat) : list (list Z) :=
   let s0 := finit (map (fun pp => (fst pp, map fmk_cycle (snd pp))) (fst c)) in
   fobserve s0 :: ftrace (snd c) s0.
